@@ -5,7 +5,8 @@ All theorems are about the Model functions the driver executes (OFV/Model/C16.le
 (OFV/Spec/Basic.lean) that give the reductions their meaning.
 
 Not proved here (see OPEN_STATEMENTS in harness/c16.py): the operator-level statements
-(spectrum of the tapered operator, freeze_orbitals with prune=True, SCBK sector): Spec oracle only.
+(spectrum of the tapered operator; that bravyi_kitaev_tree output meets the hypothesis of
+scbk_sector_sound): Spec oracle only.
 -/
 import OFV.Proofs.C16
 import OFV.Proofs.C16Pauli
@@ -13,6 +14,8 @@ import OFV.Proofs.C16Loop
 import OFV.Proofs.C16Proj
 import OFV.Proofs.C16Embed
 import OFV.Proofs.C16Freeze
+import OFV.Proofs.C16Prune
+import OFV.Proofs.C16Scbk
 
 namespace OFV.C16
 open OFV OFV.Spec OFV.Model OFV.Model.C16 OFV.C16P OFV.Generated
@@ -375,6 +378,80 @@ example : (freezeOrbitalsX eqTolerance [([(2, 1), (1, 1), (0, 0), (1, 0)], 1), (
       [1] [3] false).2 = true ∧
     (freezeOrbitalsX eqTolerance [([(2, 1), (1, 1), (0, 0), (1, 0)], 1), ([(0, 1), (0, 0)], ⟨1/2, 0⟩)]
       [1] [3] false).1 = [([(2, 1), (0, 0)], 1), ([(0, 1), (0, 0)], ⟨1/2, 0⟩)] := by
+  decide +kernel
+
+/-- **`prune_unused_indices_sound`**: for a FermionOperator dictionary `C` (distinct keys) and `S` the
+increasing list of the modes `C` acts on, the pruned operator has between the basis states `s, x` of
+the `|S|`-mode register the matrix elements of `C` between the states spread over `S`
+(`Spec.C16.embed S []`: bit `j` goes to mode `S[j]`): the relabelling is the order-preserving
+bijection, so the Jordan–Wigner-like signs of the Spec (occupied modes below) are unchanged. -/
+theorem prune_unused_indices_sound (C : Model.Op) (hwf : Dict.WF C) (S : List Nat) (hS : S.Pairwise (· < ·))
+    (hmem : ∀ x, x ∈ S ↔ ∃ e ∈ C, ∃ g ∈ e.1, g.1 = x) (s x : Nat)
+    (hs : s < 2 ^ S.length) (hx : x < 2 ^ S.length) :
+    GV.coeff (applyOp .fermion (pruneUnusedIndices C) [s]) [x]
+      = GV.coeff (applyOp .fermion C [Spec.C16.embed S [] s]) [Spec.C16.embed S [] x] := by
+  obtain ⟨u1, u2⟩ := sortedUsed_spec C
+  have hSeq : S = sortedUsed C := sorted_unique _ _ hS u1 (fun y => by rw [hmem y, u2 y])
+  subst hSeq
+  exact prune_den C hwf s x hs hx
+
+/-- non-vacuity: `a†_5 a_2 + 2 a†_7 a_7` is relabelled to `a†_1 a_0 + 2 a†_2 a_2` -/
+example : pruneUnusedIndices [([(5, 1), (2, 0)], 1), ([(7, 1), (7, 0)], 2)]
+      = [([(1, 1), (0, 0)], 1), ([(2, 1), (2, 0)], 2)] ∧
+    Dict.WF ([([(5, 1), (2, 0)], 1), ([(7, 1), (7, 0)], 2)] : Model.Op) ∧
+    ([2, 5, 7] : List Nat).Pairwise (· < ·) := by
+  refine ⟨by decide +kernel, by unfold Dict.WF Dict.keys; decide, by decide⟩
+
+/-- **`freeze_orbitals_sound` with `prune=True`** at the live tolerance: with `S` the increasing list of
+the modes the unpruned result acts on, `⟨x| freeze_orbitals(A, prune=True) |s⟩ = ⟨embed x| A |embed s⟩`
+for all `s, x < 2^|S|`, where `Spec.C16.embed S occupied` sends bit `j` to mode `S[j]` and sets the
+occupied frozen modes — the statement the harness oracle (`c16.spec_embed_eq`) evaluates; hypotheses:
+distinct frozen orbitals, a dictionary with distinct keys and actions 0/1, exactness flag `true`. -/
+theorem freeze_orbitals_prune_sound (tol : Rat) (A : Model.Op) (occupied unoccupied : List Nat)
+    (hnd : (occupied ++ unoccupied).Nodup) (hwf : Dict.WF A) (hA : ∀ e ∈ A, ∀ g ∈ e.1, g.2 < 2)
+    (hex : (freezeOrbitalsX tol A occupied unoccupied true).2 = true)
+    (S : List Nat) (hS : S.Pairwise (· < ·))
+    (hmem : ∀ x, x ∈ S ↔ ∃ e ∈ freezeOrbitals tol A occupied unoccupied false, ∃ g ∈ e.1, g.1 = x)
+    (s x : Nat) (hs : s < 2 ^ S.length) (hx : x < 2 ^ S.length) :
+    GV.coeff (applyOp .fermion (freezeOrbitals tol A occupied unoccupied true) [s]) [x]
+      = GV.coeff (applyOp .fermion A [Spec.C16.embed S occupied s]) [Spec.C16.embed S occupied x] :=
+  freeze_prune_den tol A occupied unoccupied hnd hwf hA hex S hS hmem s x hs hx
+
+/-- non-vacuity: the example of `freeze_orbitals_sound` pruned: modes `{0, 2}` become `{0, 1}` -/
+example : (freezeOrbitalsX eqTolerance [([(2, 1), (1, 1), (0, 0), (1, 0)], 1), ([(0, 1), (0, 0)], ⟨1/2, 0⟩)]
+      [1] [3] true).2 = true ∧
+    (freezeOrbitalsX eqTolerance [([(2, 1), (1, 1), (0, 0), (1, 0)], 1), ([(0, 1), (0, 0)], ⟨1/2, 0⟩)]
+      [1] [3] true).1 = [([(1, 1), (0, 0)], 1), ([(0, 1), (0, 0)], ⟨1/2, 0⟩)] := by
+  decide +kernel
+
+/-- **`scbk_sector_sound`** (the reduction of `symmetry_conserving_bravyi_kitaev`, Model level, all four
+cases of `N mod 4`).  Let `Q` be a qubit operator on `n ≥ 2` qubits whose terms are Pauli strings on
+distinct qubits that carry only `I` or `Z` on the last qubit `n-1` and on the middle qubit `n/2-1`
+(what the Bravyi-Kitaev tree transform of a number- and spin-conserving Hamiltonian with up-then-down
+ordering looks like), and let the exactness flag of the run be `true` (neither `compress` call
+truncates a coefficient; reported by the driver).  Then the operator the code returns —
+`edit_hamiltonian_for_spin(·, n, p_final)`, `edit_hamiltonian_for_spin(·, n/2, p_middle)`,
+`remove_indices(·, (n/2, n))` with `(p_final, p_middle) = (+,+), (-,-), (+,-), (-,+)` for
+`N mod 4 = 0, 1, 2, 3` — has, between the basis states `s, t` of the `n-2` remaining qubits, the matrix
+elements of `Q` between the states with the last qubit in `|1⟩` iff `p_final = -1` and the middle qubit
+in `|1⟩` iff `p_middle = -1` (`Spec.C16.embed`, the statement the harness oracle evaluates). -/
+theorem scbk_sector_sound (tol : Rat) (n N : Nat) (Q : Model.Op) (hn : 2 ≤ n)
+    (hQ : ∀ e ∈ Q, Good n (n - 1) (n / 2 - 1) e.1) (hex : scbkExact tol Q n N = true) (s t : Nat)
+    (hs : s < 2 ^ (n - 2)) (ht : t < 2 ^ (n - 2)) :
+    GV.coeff (applyOp .qubit (scbkReduce tol Q n N) [s]) [t]
+      = GV.coeff (applyOp .qubit Q
+          [Spec.C16.embed (keptList n [n / 2 - 1, n - 1]) (onesList [n / 2 - 1, n - 1] [sigmaM N, sigmaF N]) s])
+          [Spec.C16.embed (keptList n [n / 2 - 1, n - 1]) (onesList [n / 2 - 1, n - 1] [sigmaM N, sigmaF N]) t] :=
+  scbk_den tol n N Q hn hQ hex s t hs ht
+
+/-- the sector bits: `N mod 4 = 0, 1, 2, 3` fixes (middle, last) to `(0,0), (1,1), (1,0), (0,1)` -/
+example : (List.range 4).map (fun N => (sigmaM N, sigmaF N)) = [(0, 0), (1, 1), (1, 0), (0, 1)] := by decide
+
+/-- non-vacuity: `Z_3 + 1/2 Z_1 Z_3 + X_0 X_2` on 4 qubits with `N = 1` (both parities `-1`), at the
+live tolerance: the flag is `true` and the result is `-1 + 1/2 + X_0 X_1` -/
+example : scbkExact eqTolerance [([(3, 3)], 1), ([(1, 3), (3, 3)], ⟨1/2, 0⟩), ([(0, 1), (2, 1)], 1)] 4 1 = true ∧
+    scbkReduce eqTolerance [([(3, 3)], 1), ([(1, 3), (3, 3)], ⟨1/2, 0⟩), ([(0, 1), (2, 1)], 1)] 4 1
+      = [([], ⟨-1/2, 0⟩), ([(0, 1), (1, 1)], 1)] := by
   decide +kernel
 
 end OFV.C16
